@@ -2,6 +2,7 @@ CONSTANTS
  NF = 8
  MaxOps = 14
  MaxComps = 3
+ VarKinds = {""}
  EmitFrom = 0
 INIT Init
 NEXT NextWide
